@@ -469,16 +469,26 @@ func init() {
 			if c%12 == 0 {
 				depth = 8 + r.n(8) // a tower of wrappers
 				if c%24 == 0 {
-					depth = 30 + r.n(12) // each storey registers its measuring callback on the core table
+					depth = 33 + r.n(9) // each storey registers its measuring callback on the core table
 				}
 			}
+			storey := ""
+			if depth >= 30 {
+				storey = []string{"markdown", "text"}[(c/24)%2] // every storey of one measuring kind: its callback piles up before the other kind's first arrives
+			}
 			for d := 0; d < depth; d++ {
-				if cur[0] == 'T' {
-					cur = g.do("wrap " + r.pick(kinds) + " " + cur)
-				} else {
-					cur = g.do("rewrap " + r.pick(kinds) + " " + cur)
+				k := r.pick(kinds)
+				if storey != "" {
+					k = storey
 				}
-				refs = append(refs, cur)
+				if cur[0] == 'T' {
+					cur = g.do("wrap " + k + " " + cur)
+				} else {
+					cur = g.do("rewrap " + k + " " + cur)
+				}
+				if storey == "" || d%8 == 0 || d == depth-1 {
+					refs = append(refs, cur)
+				}
 			}
 			var viol []string
 			// a user decoration under a name that lower-casing alters: the wrapper method set to it by name,
